@@ -173,7 +173,14 @@ namespace TAO_PEGTL_NAMESPACE
             std::terminate();
 #endif
          }
-         m_end += m_reader( m_end, ( std::min )( buffer_free_after_end(), ( std::max )( amount - buffer_occupied(), Chunk ) ) );
+         // A reader may legally deliver fewer bytes than asked for; only a return value of zero means end of input.
+         while( buffer_occupied() < amount ) {
+            const std::size_t r = m_reader( m_end, ( std::min )( buffer_free_after_end(), ( std::max )( amount - buffer_occupied(), Chunk ) ) );
+            if( r == 0 ) {
+               break;
+            }
+            m_end += r;
+         }
       }
 
       template< rewind_mode M >
